@@ -548,10 +548,10 @@ impl Family for AvroDecoderFamily {
         true
     }
     fn bounds(&self, quick: bool) -> ChunkBounds {
-        ChunkBounds { full_n: if quick { 14 } else { 16 }, pair_n: if quick { 150 } else { 400 }, triple_n: if quick { 0 } else { 80 }, interesting_max: if quick { 10 } else { 13 }, max_groups: if quick { 3 } else { 8 }, flush_policies: true, empty_chunks: true }
+        ChunkBounds { full_n: if quick { 14 } else { 16 }, pair_n: if quick { 150 } else { 400 }, triple_n: if quick { 0 } else { 80 }, interesting_max: if quick { 10 } else { 13 }, max_groups: if quick { 3 } else { 8 }, uniform_max: usize::MAX, flush_policies: true, empty_chunks: true }
     }
     fn corrupt_bounds(&self, quick: bool) -> ChunkBounds {
-        ChunkBounds { full_n: 0, pair_n: if quick { 0 } else { 60 }, triple_n: 0, interesting_max: 8, max_groups: 1, flush_policies: true, empty_chunks: false }
+        ChunkBounds { full_n: 0, pair_n: if quick { 0 } else { 60 }, triple_n: 0, interesting_max: 8, max_groups: 1, uniform_max: usize::MAX, flush_policies: true, empty_chunks: false }
     }
     fn run(&self, inp: &InputSpec, bs: usize, _variant: usize, ch: &Chunking) -> Outcome {
         run_decoder(self.soe(inp), &inp.bytes, bs, ch)
@@ -572,28 +572,39 @@ impl Family for AvroDecoderFamily {
         }
         v
     }
-    fn classify(&self, inp: &InputSpec, bs: usize, _variant: usize, ch: &Chunking, reference: &Outcome, got: &Outcome, diff: &Diff) -> String {
-        let symptom = if diff.kind.starts_with("outcome:ok->err") && got.msg.contains("bad varint") {
-            "bad-varint-error-instead-of-waiting".to_string()
-        } else if diff.kind.starts_with("outcome:ok->err") && got.msg.contains("must have the specified row count") {
-            "row-count-error-from-partially-decoded-record".to_string()
+    /// Class-level identity of a disagreement = symptom + whether the cut list contains a cut of the kind the
+    /// known mechanism (DESIGN F1) needs. A disagreement without such a cut gets an `unexplained` fingerprint.
+    fn classify(&self, inp: &InputSpec, _bs: usize, _variant: usize, ch: &Chunking, reference: &Outcome, got: &Outcome, diff: &Diff) -> String {
+        let frames = &self.soe(inp).frames;
+        let n = inp.bytes.len();
+        let cuts: Vec<usize> = ch.cuts.iter().map(|&c| c as usize).filter(|&c| c > 0 && c < n).collect();
+        // (A) a presented buffer ends exactly before, or inside, a varint of a record body
+        let at_varint = |c: usize| {
+            frames.iter().any(|f| c > f.body && c < f.end && f.toks.iter().any(|t| t.kind == TokKind::Varint && ((c == t.start) || (c > t.start && c < t.end))))
+        };
+        // (B) a presented buffer ends inside a record body after at least one complete token
+        let in_body_after_token = |c: usize| frames.iter().any(|f| c > f.body && c < f.end && f.toks.first().is_some_and(|t| c >= t.end));
+        let bad_varint = got.class.starts_with("err:") && got.msg.contains("bad varint");
+        let silent = got.class == "ok" && reference.class == "ok";
+        let symptom = if diff.kind == "wf" || diff.kind == "batch-exceeds-batch-size" || got.class.starts_with("panic") || got.class == "hang" {
+            return format!("{}:{}", diff.kind, got.class); // never folded into the known classes
+        } else if bad_varint {
+            "bad-varint-error-instead-of-waiting-for-more-data"
+        } else if silent {
+            "partially-decoded-record-retained:ok-with-wrong-rows"
         } else {
-            diff.kind.clone()
+            "partially-decoded-record-retained:error-or-other-outcome"
         };
         if inp.corrupt.is_some() {
-            return format!("{symptom}@corrupted-input");
+            return format!("{symptom}:on-corrupted-input");
         }
-        // the triggering cut: the last cut of the shortest prefix of the cut list that already disagrees
-        let mut trigger = ch.cuts.last().copied().unwrap_or(0);
-        for k in 1..=ch.cuts.len() {
-            let sub = Chunking { cuts: ch.cuts[..k].to_vec(), flush: ch.flush };
-            let o = super::run_caught(self, inp, bs, 0, &sub);
-            if compare(reference, &o, Some(bs)).is_some() {
-                trigger = ch.cuts[k - 1];
-                break;
-            }
+        let explained = if bad_varint { cuts.iter().any(|&c| at_varint(c)) } else { cuts.iter().any(|&c| in_body_after_token(c)) };
+        if explained {
+            if bad_varint { format!("{symptom}:chunk-ends-before-or-inside-a-varint-of-a-record-body") } else { format!("{symptom}:chunk-ends-inside-record-body-after-a-complete-token") }
+        } else {
+            let kinds: std::collections::BTreeSet<&str> = cuts.iter().map(|&c| cut_class(frames, c)).collect();
+            format!("{symptom}:unexplained:{}:{}", diff.kind, kinds.into_iter().collect::<Vec<_>>().join("+"))
         }
-        format!("{symptom}@chunk-ends-{}", cut_class(&self.soe(inp).frames, trigger as usize))
     }
 }
 
@@ -710,10 +721,10 @@ impl Family for AvroOcfFamily {
         true
     }
     fn bounds(&self, quick: bool) -> ChunkBounds {
-        ChunkBounds { full_n: 0, pair_n: if quick { 330 } else { 700 }, triple_n: 0, interesting_max: if quick { 10 } else { 13 }, max_groups: if quick { 2 } else { 6 }, flush_policies: false, empty_chunks: false }
+        ChunkBounds { full_n: 0, pair_n: if quick { 330 } else { 700 }, triple_n: 0, interesting_max: if quick { 10 } else { 13 }, max_groups: if quick { 2 } else { 6 }, uniform_max: usize::MAX, flush_policies: false, empty_chunks: false }
     }
     fn corrupt_bounds(&self, quick: bool) -> ChunkBounds {
-        ChunkBounds { full_n: 0, pair_n: 0, triple_n: 0, interesting_max: 8, max_groups: if quick { 0 } else { 1 }, flush_policies: false, empty_chunks: false }
+        ChunkBounds { full_n: 0, pair_n: 0, triple_n: 0, interesting_max: 8, max_groups: if quick { 0 } else { 1 }, uniform_max: if quick { 16 } else { usize::MAX }, flush_policies: false, empty_chunks: false }
     }
     fn run(&self, inp: &InputSpec, bs: usize, _variant: usize, ch: &Chunking) -> Outcome {
         run_ocf(&inp.bytes, bs, ch)
